@@ -632,10 +632,18 @@ sqf::runtime::runtime::result sqf::runtime::runtime::execute(sqf::runtime::runti
                 }
                 if (dinf.has_value())
                 {
-                    auto next_inst = m_context_active->current_frame().peek(success);
-                    if (success && dinf.value() != (*next_inst)->diag_info())
+                    if (m_context_active->empty())
                     {
-                        break;
+                        continue;
+                    }
+                    auto next_inst = m_context_active->current_frame().peek(success);
+                    if (success)
+                    { // A line step ends in front of the first instruction of another line
+                        auto next_dinf = (*next_inst)->diag_info();
+                        if (dinf->line != next_dinf.line || !(dinf->path == next_dinf.path))
+                        {
+                            break;
+                        }
                     }
                 }
             }
